@@ -7,6 +7,7 @@ mod alloc_model;
 mod findings;
 mod search;
 mod serde_find;
+mod decoder_find;
 mod unknown_find;
 mod varint_find;
 
